@@ -531,7 +531,7 @@ pub fn c03(big: bool) -> BoxedStrategy<Case> {
 
 pub fn c04(big: bool) -> BoxedStrategy<Case> {
     let max_ops = if big { 14 } else { 9 };
-    let base = OpWeights { stop: 7, halt: 4, try_stop: 5, await_: 7, drop: 0, give: 2, join: 3, consume: 2, restart: 2, max_sleep: 4, send: 28, call: 24, ping: 5, convert: 8, ..MSG_WEIGHTS };
+    let base = OpWeights { stop: 7, halt: 4, try_stop: 5, await_: 7, drop: 0, give: 2, join: 3, consume: 2, restart: 2, max_sleep: 4, send: 28, call: 24, ping: 5, convert: 8, call_drop: 5, ..MSG_WEIGHTS };
     let op = mixed_ops(base, vec![(8, msg_op(1, 1, ctx_work(3, 3, 0))), (2, h().prop_map(|h| ClientOp::JoinLazyDetach { h }).boxed()), (2, Just(ClientOp::AwaitLazy).boxed())]);
     let spawn = prop_oneof![
         8 => plain_spawn(true),
@@ -992,7 +992,7 @@ pub fn c11(big: bool) -> BoxedStrategy<Case> {
 
 pub fn c13(big: bool) -> BoxedStrategy<Case> {
     let max_ops = if big { 16 } else { 10 };
-    let base = OpWeights { send: 22, call: 18, ping: 4, convert: 6, yield_: 6, sleep: 5, give: 1, drop: 5, stop: 4, halt: 1, try_stop: 1, await_: 3, join: 2, max_sleep: 4, ..MSG_WEIGHTS };
+    let base = OpWeights { send: 22, call: 18, ping: 4, convert: 6, yield_: 6, sleep: 5, give: 1, drop: 5, stop: 4, halt: 1, try_stop: 1, await_: 3, join: 2, max_sleep: 4, call_drop: 4, ..MSG_WEIGHTS };
     let op = mixed_ops(
         base,
         vec![
